@@ -1,4 +1,5 @@
 import Driver.D23
+import Driver.D25
 import Driver.D29
 import Driver.D31
 /-
@@ -14,6 +15,7 @@ def dispatch (line : String) : String :=
     if stream ∈ ["assignable", "usage", "implfield"] then c29 stream fs
     else if stream ∈ ["coord", "lookup"] then c23 stream fs
     else if stream ∈ ["pack", "alloc"] then c31 stream fs
+    else if stream ∈ ["maxdepth"] then c25 stream fs
     else "unknown-stream"
 
 partial def loop (h : IO.FS.Stream) (out : IO.FS.Stream) : IO Unit := do
